@@ -111,7 +111,12 @@ def scipy_tuple(dimspec, given):
     return [float(np.asarray(a, dtype=float)) for a in args]
 
 
-def draw_case(ctx, rng, spec, n, rs_kind, name):
+def mkseed(seed, seed_type="int"):
+    """the object handed in as random_state for an integer seed (a numpy integer is an integer seed as well)"""
+    return np.int64(seed) if seed_type == "int64" else int(seed)
+
+
+def draw_case(ctx, rng, spec, n, rs_kind, name, seed=None, seed_type="int"):
     """Run the real draw_sample with the rvs proxy; returns (coq text, expression, meta)."""
     model = M.build_model(spec)
     ids = {}
@@ -121,13 +126,13 @@ def draw_case(ctx, rng, spec, n, rs_kind, name):
             ids[key] = len(ids) + 1
         return ids[key]
 
-    seed = rng.randrange(2 ** 32)
+    seed = rng.randrange(2 ** 32) if seed is None else seed
     np.random.seed(rng.randrange(2 ** 32))
     glob = sid(state_key(None))
     if rs_kind == "none":
         rs_arg, rs_term, init = None, "RSNone", glob
     elif rs_kind == "int":
-        rs_arg, rs_term = seed, "(RSInt %d%%Z)" % seed
+        rs_arg, rs_term = mkseed(seed, seed_type), "(RSInt %d%%Z)" % seed
         init = sid(state_key(np.random.default_rng(seed)))
     else:
         rs_arg = np.random.default_rng(seed)
@@ -139,7 +144,12 @@ def draw_case(ctx, rng, spec, n, rs_kind, name):
             err = None
         except Exception as e:  # noqa
             sample, err = None, type(e).__name__
-    meta = {"spec": spec, "n": n, "rs": rs_kind, "seed": seed, "err": err, "ncalls": len(log), "notes": []}
+    meta = {"spec": spec, "n": n, "rs": rs_kind, "seed": seed, "seed_type": seed_type, "err": err, "ncalls": len(log), "notes": []}
+    if rs_kind == "int":
+        # an integer seed -- ANY integer, 0 included -- makes ONE Generator that every rvs call receives
+        for i, c in enumerate(log):
+            if not c["before"].startswith("gen:"):
+                meta["notes"].append("rvs call %d received %s instead of the one Generator made from the seed" % (i, c["before"][:40]))
     if err is not None:
         return "", "4%Z", meta
     sample = np.asarray(sample, dtype=float)
@@ -293,6 +303,41 @@ def input_class(spec, i):
     return "other"
 
 
+EDGE_SEEDS = [(0, "int"), (0, "int64"), (2 ** 32 - 1, "int"), (1, "int")]
+
+
+def edge_specs():
+    """models whose dimensions use the same base sampler with the same parameters: if the dimensions do not share ONE
+    threaded generator (e.g. each re-seeds from the same integer) their columns coincide / are dependent"""
+    w = {"alpha": ["val", 2.0], "beta": ["val", 1.5], "gamma": ["val", 0.0]}
+    ln = {"mu": ["val", 0.5], "sigma": ["val", 0.4]}
+    twin_w = {"dims": [{"fam": "W", "cond": None, "params": dict(w)}, {"fam": "W", "cond": None, "params": dict(w)}]}
+    twin_ln = {"dims": [{"fam": "LN", "cond": None, "params": dict(ln)}, {"fam": "LN", "cond": None, "params": dict(ln)},
+                        {"fam": "LN", "cond": None, "params": dict(ln)}]}
+    w_w = {"dims": [{"fam": "W", "cond": None, "params": dict(w)},
+                    {"fam": "W", "cond": 0, "params": {"alpha": ["dep", "lin", [1.0, 0.5]], "beta": ["fix", 2.0], "gamma": ["fix", 0.0]}}]}
+    ln_ln_ln = {"dims": [{"fam": "LN", "cond": None, "params": dict(ln)},
+                         {"fam": "LN", "cond": 0, "params": {"mu": ["dep", "sat", [0.2, 1.0]], "sigma": ["fix", 0.3]}},
+                         {"fam": "LN", "cond": 1, "params": {"mu": ["dep", "lnsq", [1.5, 2.0]], "sigma": ["dep", "asym", [0.2, 0.4, 0.5]]}}]}
+    return [twin_w, twin_ln, w_w, ln_ln_ln]
+
+
+def _o_twin(spec, n, seed, seed_type="int"):
+    """independent identically distributed variables: no two columns of a sample may coincide (probability zero)"""
+    model = make_model(spec)
+    a = np.asarray(model.draw_sample(n, random_state=mkseed(seed, seed_type)), dtype=float)
+    nd = len(spec["dims"])
+    if a.shape != (n, nd):
+        return ({"clause": "shape"}, "draw_sample(%d) has shape %r" % (n, a.shape))
+    for i in range(nd):
+        for j in range(i + 1, nd):
+            if np.array_equal(a[:, i], a[:, j]):
+                return ({"clause": "generator-threaded", "kind": "columns-share-a-stream"},
+                        "draw_sample(%d, random_state=%s(%d)): columns %d and %d of independent variables are identical (%r): "
+                        "the dimensions do not share one threaded generator" % (n, "np.int64" if seed_type == "int64" else "int", seed, i, j, a[:, i].tolist()[:3]))
+    return None
+
+
 def ks_uniform(u):
     u = np.sort(np.asarray(u, dtype=float))
     n = len(u)
@@ -387,6 +432,7 @@ o_none_state = _safe(_o_none_state, "model.draw_sample(n)")
 o_redraw = _safe(_o_redraw, "model.draw_sample(n, random_state=Generator)")
 o_statistics = _safe(_o_statistics, "model.draw_sample(n, random_state=seed)")
 o_univariate = _safe(_o_univariate, "dist.draw_sample(n, random_state=seed)")
+o_twin = _safe(_o_twin, "model.draw_sample(n, random_state=seed)")
 
 
 def replay(ctx, rp):
@@ -399,7 +445,9 @@ def replay(ctx, rp):
     elif kind == "redraw":
         o = o_redraw(rp["spec"], rp["n"], rp["seed"])
     elif kind == "statistics":
-        o = o_statistics(rp["spec"], rp["n"], rp["seed"], stats)
+        o = o_statistics(rp["spec"], rp["n"], mkseed(rp["seed"], rp.get("seed_type", "int")), stats)
+    elif kind == "twin":
+        o = o_twin(rp["spec"], rp["n"], rp["seed"], rp.get("seed_type", "int"))
     elif kind == "univariate":
         o = o_univariate(rp["dimspec"], rp["n"], rp["seed"], stats, rp.get("given"))
     else:
@@ -460,7 +508,8 @@ def run(ctx):
         dist[k] = dist.get(k, 0) + 1
     ctx.notes["input_distribution"] = {"models_by_structure": dist, "families": sorted({d["fam"] for sp in specs for d in sp["dims"]}),
                                        "n_coq": "1..200", "n_oracle": "1, 2, 3, 17, 1000, 20000 (thorough: up to 1e6)",
-                                       "random_state": ["None", "int", "Generator"]}
+                                       "random_state": ["None", "int", "Generator"],
+                                       "edge_seeds_every_run": ["0", "np.int64(0)", "2**32-1", "1"]}
 
     # ---- correspondence
     per_shard = 14
@@ -477,6 +526,17 @@ def run(ctx):
         body += "Eval vm_compute in [%s].\n" % ";\n  ".join(exprs)
         items.append(("cases_%d" % (s // per_shard), body))
         metas.append(shard_meta)
+    # EVERY run: integer seeds 0, np.int64(0), 2**32-1, 1 on models whose dimensions share a base sampler
+    body, exprs, shard_meta = PRELUDE, [], []
+    for a, esp in enumerate(edge_specs()):
+        for b, (eseed, etype) in enumerate(EDGE_SEEDS):
+            text, expr, meta = draw_case(ctx, rng, esp, rng.choice([2, 3, 7]), "int", "e%d_%d" % (a, b), seed=eseed, seed_type=etype)
+            body += text
+            exprs.append(expr)
+            shard_meta.append(meta)
+    body += "Eval vm_compute in [%s].\n" % ";\n  ".join(exprs)
+    items.append(("cases_edge_seeds", body))
+    metas.append(shard_meta)
     outs = ctx.coq_eval_many(items, jobs=12)
     names = {1: "sample differs from the model's (row pairing / parameters / values)", 2: "final generator state differs",
              3: "number of rvs calls", 4: "draw_sample raised", 5: "shape"}
@@ -528,8 +588,16 @@ def run(ctx):
         sp, n = m["spec"], max(m["n"], 2)
         seed, seed2 = m["seed"], m["seed"] + 1
         k0, v0 = known[0], len(ctx.violations)
-        n1, o = shrink_n(lambda k: o_shape_seed(sp, k, seed, seed2), n)
-        hit = report(o, {"oracle": "shape_seed", "spec": sp, "n": n1, "seed": seed, "seed2": seed2})
+        st = m.get("seed_type", "int")
+        hit = False
+        if m["rs"] == "int" and all(d == sp["dims"][0] for d in sp["dims"]):
+            hit = report(o_twin(sp, 2, seed, st), {"oracle": "twin", "spec": sp, "n": 2, "seed": seed, "seed_type": st})
+        if not hit and m["rs"] == "int":
+            hit = report(o_statistics(sp, nbig, mkseed(seed, st), stats),
+                         {"oracle": "statistics", "spec": sp, "n": nbig, "seed": seed, "seed_type": st})
+        if not hit:
+            n1, o = shrink_n(lambda k: o_shape_seed(sp, k, seed, seed2), n)
+            hit = report(o, {"oracle": "shape_seed", "spec": sp, "n": n1, "seed": seed, "seed2": seed2})
         if not hit:
             n1, o = shrink_n(lambda k: o_redraw(sp, k, seed), max(n, 50))
             hit = report(o, {"oracle": "redraw", "spec": sp, "n": n1, "seed": seed})
@@ -555,6 +623,19 @@ def run(ctx):
         if idx % ctx.n(2, 1) == 0:
             neval += 1
             report(o_statistics(sp, nbig, seed, stats), {"oracle": "statistics", "spec": sp, "n": nbig, "seed": seed})
+    # edge seeds (0 is falsy, np.int64(0) too, 2**32-1 is the largest legacy seed): same obligations as any other int seed
+    for esp in edge_specs():
+        twin = all(d == esp["dims"][0] for d in esp["dims"])
+        for eseed, etype in EDGE_SEEDS:
+            neval += 2
+            if twin:
+                for n in (1, 2, 5):
+                    if report(o_twin(esp, n, eseed, etype), {"oracle": "twin", "spec": esp, "n": n, "seed": eseed, "seed_type": etype}):
+                        break
+            report(o_statistics(esp, nbig, mkseed(eseed, etype), stats),
+                   {"oracle": "statistics", "spec": esp, "n": nbig, "seed": eseed, "seed_type": etype})
+            report(o_shape_seed(esp, 3, eseed, eseed + 1 if eseed < 2 ** 32 - 1 else 5),
+                   {"oracle": "shape_seed", "spec": esp, "n": 3, "seed": eseed, "seed2": eseed + 1 if eseed < 2 ** 32 - 1 else 5})
     # univariate: every family, unconditional and as a conditional distribution at a scalar given
     for fam in ALLFAMS:
         for rep in range(ctx.n(2, 12)):
